@@ -113,6 +113,20 @@ fn cache_truth(seed: u64) -> Vec<TruthKey> {
         .collect()
 }
 
+/// capacity of the cache in a scenario; history "tight" stores it next to the cache directory (bytes prepared + 10, so that
+/// the victim's put must evict about as much as it inserts)
+fn cache_cap_at(hist: &str, dir: &Path) -> u64 {
+    if hist == "tight" {
+        if let Ok(s) = std::fs::read_to_string(dir.join("cache-cap.txt")) {
+            if let Ok(v) = s.trim().parse::<u64>() {
+                return v;
+            }
+        }
+        return 1 << 30;
+    }
+    cache_cap(hist)
+}
+
 fn cache_cap(hist: &str) -> u64 {
     if hist == "empty" || hist == "subranges" {
         1 << 30
@@ -188,6 +202,24 @@ pub fn prep(args: &Args) {
             let cd = dir.join("cache");
             std::fs::create_dir_all(&cd).unwrap();
             let truth = cache_truth(seed);
+            if hist == "tight" {
+                // three whole keys cached, capacity = what they occupy + 10: the victim's put has to evict about as much as it
+                // inserts; killed between its rename and its unlinks, the directory holds more than the capacity
+                let cache = DiskCache::initialize(&CacheConfig { cache_directory: cd.clone(), cache_size: 1 << 30 }).unwrap();
+                for t in truth.iter().take(3) {
+                    let h = t.n() / 2;
+                    for (a, b) in [(0usize, h.max(1)), (h.max(1), t.n())] {
+                        if a < b {
+                            let (o, d) = t.slice(a, b);
+                            let _ = cache.put(&t.key, &ChunkRange { start: a as u32, end: b as u32 }, &o, d);
+                        }
+                    }
+                }
+                drop(cache);
+                let total: u64 = crate::e_cache_walk(&cd).iter().map(|x| x.1).sum();
+                std::fs::write(dir.join("cache-cap.txt"), format!("{}", total + 10)).unwrap();
+                return;
+            }
             if hist == "subranges" {
                 // the key the victim will put whole already has some of its sub-ranges cached (capacity not binding):
                 // the victim's put supersedes them
@@ -286,7 +318,7 @@ pub fn victim(args: &Args) {
         },
         "cacheput" => {
             let truth = cache_truth(seed);
-            let cache = DiskCache::initialize(&CacheConfig { cache_directory: dir.join("cache"), cache_size: cache_cap(&hist) }).unwrap();
+            let cache = DiskCache::initialize(&CacheConfig { cache_directory: dir.join("cache"), cache_size: cache_cap_at(&hist, &dir) }).unwrap();
             let t = &truth[3];
             let (a, b) = (0, t.n());
             let (o, d) = t.slice(a, b);
@@ -297,7 +329,7 @@ pub fn victim(args: &Args) {
         },
         "cacheinit" => {
             marker("begin");
-            let r = DiskCache::initialize(&CacheConfig { cache_directory: dir.join("cache"), cache_size: cache_cap(&hist) });
+            let r = DiskCache::initialize(&CacheConfig { cache_directory: dir.join("cache"), cache_size: cache_cap_at(&hist, &dir) });
             marker("end");
             println!("XVRESULT {}", if r.is_ok() { "ok" } else { "err" });
         },
@@ -522,7 +554,7 @@ pub fn check(args: &Args) {
             "cacheput" | "cacheinit" => {
                 let cd = dir.join("cache");
                 let (invalid, valid) = cache_dir_state(&cd);
-                let no_eviction = cache_cap(&hist) >= (1 << 30);
+                let no_eviction = cache_cap_at(&hist, &dir) >= (1 << 30);
                 let readable_chunks = |cache: &DiskCache| -> Vec<String> {
                     let mut v = Vec::new();
                     for (ki, t) in cache_truth(seed).iter().enumerate() {
@@ -538,7 +570,7 @@ pub fn check(args: &Args) {
                     let mut readable = Vec::new();
                     if no_eviction && op == "cacheput" {
                         // pre-phase runs on a scratch copy of the prepared directory? no: on the base itself, read-only gets
-                        if let Ok(cache) = DiskCache::initialize(&CacheConfig { cache_directory: cd.clone(), cache_size: cache_cap(&hist) }) {
+                        if let Ok(cache) = DiskCache::initialize(&CacheConfig { cache_directory: cd.clone(), cache_size: cache_cap_at(&hist, &dir) }) {
                             readable = readable_chunks(&cache);
                         }
                     }
@@ -551,7 +583,7 @@ pub fn check(args: &Args) {
                         return Err(format!("partial-cache-item-under-final-name|cache file {i} has a final name but its length / checksum do not match it"));
                     }
                 }
-                let cache = DiskCache::initialize(&CacheConfig { cache_directory: cd.clone(), cache_size: cache_cap(&hist) }).map_err(|e| format!("reopen-error-after-crash|DiskCache cannot re-open the directory: {e}"))?;
+                let cache = DiskCache::initialize(&CacheConfig { cache_directory: cd.clone(), cache_size: cache_cap_at(&hist, &dir) }).map_err(|e| format!("reopen-error-after-crash|DiskCache cannot re-open the directory: {e}"))?;
                 let truth = cache_truth(seed);
                 let mut hits = 0;
                 for t in &truth {
@@ -567,6 +599,47 @@ pub fn check(args: &Args) {
                         }
                     }
                 }
+                // every complete, correctly named cache file the crash left must be tracked after the restart, i.e. readable by
+                // the range in its name (the directory holds less than twice the capacity in these scenarios, which is what a
+                // restart loads)
+                let mut on_disk_tracked = 0;
+                let disk_total: u64 = crate::e_cache_walk(&cd).iter().map(|x| x.1).sum();
+                let within_restart_budget = disk_total < 2 * cache_cap_at(&hist, &dir);
+                for (pth, len) in crate::e_cache_walk(&cd).into_iter().filter(|_| within_restart_budget) {
+                    let name = pth.file_name().unwrap().to_string_lossy().to_string();
+                    let b = URL_SAFE.decode(name.as_bytes()).unwrap_or_default();
+                    if b.len() != 20 {
+                        continue;
+                    }
+                    let (a, e) = (u32::from_le_bytes(b[0..4].try_into().unwrap()), u32::from_le_bytes(b[4..8].try_into().unwrap()));
+                    let want_len = u64::from_le_bytes(b[8..16].try_into().unwrap());
+                    let want_crc = u32::from_le_bytes(b[16..20].try_into().unwrap());
+                    let content = std::fs::read(&pth).unwrap_or_default();
+                    if len != want_len || crc32fast::hash(&content) != want_crc {
+                        continue;
+                    }
+                    let kd = pth.parent().unwrap().file_name().unwrap().to_string_lossy().to_string();
+                    let Some(t) = truth.iter().find(|t| {
+                        let mut buf = t.key.hash.as_bytes().to_vec();
+                        buf.extend_from_slice(t.key.prefix.as_bytes());
+                        URL_SAFE.encode(&buf) == kd
+                    }) else {
+                        continue;
+                    };
+                    if (e as usize) > t.n() || a >= e {
+                        continue;
+                    }
+                    match cache.get(&t.key, &ChunkRange { start: a, end: e }) {
+                        Ok(Some(_)) => on_disk_tracked += 1,
+                        other => {
+                            return Err(format!(
+                                "record-lost-after-crash|the complete cache file {name} (chunks [{a},{e})) is on disk after the restart but the re-opened cache does not serve it ({:?}): it is no longer tracked",
+                                other.map(|o| o.is_some())
+                            ))
+                        },
+                    }
+                }
+                let _ = on_disk_tracked;
                 // capacity not binding: whatever chunk was readable before the interrupted put is readable after the restart
                 let mut kept = 0;
                 if no_eviction {
